@@ -378,13 +378,15 @@ impl<const D: bool> SimShim<D> {
                     }
                     if let Some(e) = row_err {
                         match &r.recover {
-                            // report the failure to the client instead of propagating it
-                            Some((kind, msg)) => {
+                            // report the failure to the client instead of propagating it; only
+                            // refusals of the value/shape are recovered from: a transport
+                            // error handed to the application is propagated like `?` would
+                            Some((kind, msg)) if e.kind() == io::ErrorKind::InvalidData => {
                                 let m = msg.to_vec();
                                 api!("finish_error", rw.finish_error(errkind(*kind), &m))?;
                                 return Ok(());
                             }
-                            None => return Err(e.into()),
+                            _ => return Err(e.into()),
                         }
                     }
                     match &r.close {
